@@ -181,3 +181,29 @@ ENTRY int verif_copy(unsigned cap, int mode, int op, const long* ids, const char
         return finish(dst, out, outcap, outlen);
     } catch (const osmium::buffer_is_full&) { return -1; }
 }
+
+// ---------------------------------------------------------------- CallbackBuffer: ops 0 add a node and commit, 1 possibly_flush(), 2 flush(), 3 read()
+// log: per hand-over [tag (1 callback, 2 read, 3 what is left at the end), number of nodes, ids...]; returns the number of log words
+static long* g_cb_log; static unsigned g_cb_n, g_cb_cap;
+static void cb_log(long v) { if (g_cb_n < g_cb_cap) g_cb_log[g_cb_n] = v; ++g_cb_n; }
+static void cb_dump(long tag, const Buffer& b) {
+    long n = 0; for (const auto& node : b.select<osmium::Node>()) { (void)node; ++n; }
+    cb_log(tag); cb_log(n);
+    for (const auto& node : b.select<osmium::Node>()) cb_log(node.id());
+}
+ENTRY unsigned verif_callback_buffer(const unsigned char* ops, unsigned nops, unsigned initial, unsigned maxsize, int with_callback, long* log, unsigned cap) {
+    g_cb_log = log; g_cb_n = 0; g_cb_cap = cap;
+    osmium::memory::CallbackBuffer cb{initial, maxsize};
+    if (with_callback) cb.set_callback([](Buffer&& b) { cb_dump(1, b); });
+    long id = 0;
+    for (unsigned k = 0; k < nops; ++k) {
+        switch (ops[k]) {
+            case 0: { { builder::NodeBuilder nb{cb.buffer()}; nb.set_id(++id); nb.set_user(""); } cb.buffer().commit(); break; }
+            case 1: cb.possibly_flush(); break;
+            case 2: cb.flush(); break;
+            default: { Buffer b = cb.read(); cb_dump(2, b); break; }
+        }
+    }
+    cb_dump(3, cb.buffer());
+    return g_cb_n;
+}
